@@ -34,18 +34,22 @@ Definition assemble (calls : list mvn_call) (outputs : list (list (list R))) (n_
 Definition transposeR (ncols : nat) (M : list (list R)) : list (list R) :=
   map (fun j => map (fun row => nth j row 0) M) (seq 0 ncols).
 
-(* argument checks *)
-Inductive scheck := CkQuantity (allowed : list string) | CkFitted | CkLt (param : string) (bound : Z).
+(* largest absolute entry of a matrix: np.abs(M).max() *)
+Definition maxabs (M : list (list R)) : R := fold_right Rmax 0 (map Rabs (concat M)).
+
+(* argument checks; CkData = the validation block check_y / check_X / check_X_y / weights (ValueError on invalid data) *)
+Inductive scheck := CkQuantity (allowed : list string) | CkFitted | CkLt (param : string) (bound : Z) | CkData.
 Inductive soutcome := SRun | SValueError | SAttributeError.
 Inductive sample_quantity := RetCoef | RetMu | RetY.
-Definition check_fails (c : scheck) (quantity : string) (fitted : bool) (n_draws n_bootstraps : Z) : option soutcome :=
+Definition check_fails (c : scheck) (quantity : string) (fitted data_valid : bool) (n_draws n_bootstraps : Z) : option soutcome :=
   match c with
   | CkQuantity allowed => if existsb (String.eqb quantity) allowed then None else Some SValueError
   | CkFitted => if fitted then None else Some SAttributeError
   | CkLt p b => let v := if String.eqb p "n_draws" then n_draws else n_bootstraps in if Z.ltb v b then Some SValueError else None
+  | CkData => if data_valid then None else Some SValueError
   end.
-Fixpoint run_checks (cs : list scheck) (quantity : string) (fitted : bool) (n_draws n_bootstraps : Z) : soutcome :=
+Fixpoint run_checks (cs : list scheck) (quantity : string) (fitted data_valid : bool) (n_draws n_bootstraps : Z) : soutcome :=
   match cs with
   | [] => SRun
-  | c :: cs' => match check_fails c quantity fitted n_draws n_bootstraps with Some o => o | None => run_checks cs' quantity fitted n_draws n_bootstraps end
+  | c :: cs' => match check_fails c quantity fitted data_valid n_draws n_bootstraps with Some o => o | None => run_checks cs' quantity fitted data_valid n_draws n_bootstraps end
   end.
